@@ -308,15 +308,18 @@ impl RealtimeCompressor {
 
     /// Internal compression implementation
     async fn compress_internal(&self, data: &[u8]) -> Result<Vec<u8>> {
-        // For very small data, consider skipping compression
-        if data.len() < 64 && self.config.mode == CompressionMode::UltraLowLatency {
-            return Ok(data.to_vec());
-        }
-
         let compressor = self.compressor.read()
             .map_err(|e| crate::error::ZiporaError::system_error(
                 format!("RealtimeCompressor: compressor RwLock poisoned: {}", e)
             ))?;
+
+        // For very small data, consider skipping compression. Decide on the
+        // live compressor (set_mode replaces it), not on the construction-time
+        // config.mode: decompress() runs the live compressor as well.
+        if data.len() < 64 && compressor.algorithm() == Algorithm::None {
+            return Ok(data.to_vec());
+        }
+
         compressor.compress(data)
     }
 
